@@ -226,6 +226,12 @@ def streams(rng, tier):
         for c in rng.sample(cand, min(len(cand), 200 if not thorough else 2000)):
             made.append(dict(c, origin=rng.choice(["left", "full"])))
     out.append(("join-made", made))      # the same cases on operands that are columns of a join result (None = padding)
+    made = []
+    for name, cases in out[:-2]:
+        cand = [c for c in cases if "via" not in c and c.get("op") in ("bin", "un", "cmp", "red", "na") and len(c.get("a") or []) >= 2]
+        for c in rng.sample(cand, min(len(cand), 300 if not thorough else 3000)):
+            made.append(dict(c, origin=rng.choice(["promoted", "objnone", "objnone"])))
+    out.append(("write-made", made))     # ... and on operands promoted in place / object vectors with None assigned later
     # ---- per-group aggregates: every None placement x how the rows fall into groups (one group, one row per group,
     # pairs, alternating), through aggregate and through window.  Decided by the oracle alone (the reference is Python's
     # own reduction of each group's None-free values); the grouping itself is C12's.
@@ -834,7 +840,7 @@ def nontrivial(case, obs):
 
 def describe(case, obs, stream):
     if "origin" in case:
-        return ["join-made:" + (case["origin"] + " join column" if obs.get("origin_ok") else "fell back to a fresh vector")]
+        return ["origin:" + (case["origin"] if obs.get("origin_ok") else "fell back to a fresh vector")]
     if "lived" in case:
         return ["lived-in:" + ("history realised" if obs.get("lived_ok") else "fell back to a fresh vector")]
     return _describe(case, obs, stream)
